@@ -181,6 +181,10 @@ func recC09() *vkit.Recorder {
 
 type rtCase struct {
 	Seq []Assign `json:"seq"`
+	// Ahead[i]: the idle-since instant persisted by step i lies in the future when the sidecar restarts (the node's
+	// clock ran ahead when the shard became idle and was stepped back since): minutes by which it is ahead, 0 = not.
+	// The harness rewrites only the IdleAt member of the store file.
+	Ahead []int `json:"ahead,omitempty"`
 }
 
 func runRoundTrip(rec *vkit.Recorder, c *rtCase) []vkit.Violation {
@@ -202,6 +206,19 @@ func runRoundTrip(rec *vkit.Recorder, c *rtCase) []vkit.Violation {
 			idle = &cp
 		} else {
 			idle = nil
+		}
+		if i < len(c.Ahead) && c.Ahead[i] != 0 && idle != nil {
+			store := filepath.Join(dir, "kvass-shard.json")
+			var doc map[string]json.RawMessage
+			if data, err := ioutil.ReadFile(store); err == nil && json.Unmarshal(data, &doc) == nil {
+				future := time.Now().Add(time.Duration(c.Ahead[i]) * time.Minute).Round(0)
+				b, _ := json.Marshal(future)
+				doc["IdleAt"] = b
+				if out, err := json.Marshal(doc); err == nil && ioutil.WriteFile(store, out, 0644) == nil {
+					idle = &future
+					rec.Class("persisted-idle-since-ahead-of-the-clock")
+				}
+			}
 		}
 		// "restart": a fresh manager on the same directory (possibly twice)
 		for r := 0; r < 2; r++ {
@@ -241,7 +258,13 @@ func TestC09RoundTrip(t *testing.T) {
 		c := &rtCase{}
 		n := rapid.IntRange(1, 5).Draw(t, "steps")
 		for i := 0; i < n; i++ {
+			if rapid.IntRange(0, 3).Draw(t, fmt.Sprintf("a%d-empty", i)) == 0 {
+				c.Seq = append(c.Seq, Assign{})
+				c.Ahead = append(c.Ahead, rapid.SampledFrom([]int{0, 2, 90, 100000}).Draw(t, fmt.Sprintf("a%d-ahead", i)))
+				continue
+			}
 			c.Seq = append(c.Seq, genAssign(t, fmt.Sprintf("a%d", i), 8))
+			c.Ahead = append(c.Ahead, 0)
 		}
 		if bad := rec.Filter(runRoundTrip(rec, c)); len(bad) > 0 {
 			p := vkit.SaveViolation("C09", "TestC09RoundTrip", c, bad, nil)
